@@ -7,9 +7,10 @@ Outcome(kind) ==
                  "arg_module_removed_name_prefix", "elem_class_removed"} -> "NameLookupError"
     [] kind \in {"now_nonfunction", "now_class", "now_settable_property", "class_now_nontype", "class_now_nontype_ret",
                  "dunder_removed", "dunder_removed_2", "now_builtin", "now_bound_builtin",
-                 "elem_class_now_nontype", "elem_class_now_nontype_ret"} -> "InvalidTypeError"
-    [] kind = "nowraps" -> "ok_but_poisoned"
+                 "elem_class_now_nontype", "elem_class_now_nontype_ret",
+                 \* names that still resolve to something function-like which has no place in a stub
+                 "now_closure", "prop_getter_nonfunction", "nowraps"} -> "InvalidTypeError"
     [] OTHER -> "ok"
-DecodableKind(kind) == Outcome(kind) \in {"ok", "ok_but_poisoned"}
+DecodableKind(kind) == Outcome(kind) = "ok"
 
 =============================================================================
